@@ -81,6 +81,15 @@ def generated(rep, thorough):
     for n in (0, 1, 2, 100, 255):
         acks = [rng.randrange(2 ** 32) for _ in range(n)]
         for rsid in (0, 1, rng.randrange(2 ** 64)):
+            if not n:
+                # no acknowledgements but a remote session id given: nothing of it belongs on the wire
+                for mk in (lambda: O.OpenVpnPacketAckV1(rng.randrange(2 ** 64), rsid, acks),
+                           lambda: O.OpenVpnPacketControlV1(rng.randrange(2 ** 64), acks, rsid, rng.randrange(2 ** 32), b'payload'),
+                           lambda: O.OpenVpnPacketHardResetServerV2(rng.randrange(2 ** 64), rsid, acks, rng.randrange(2 ** 32))):
+                    try:
+                        out.append(mk())
+                    except Exception:  # pylint: disable=broad-except
+                        pass
             try:
                 out.append(O.OpenVpnPacketAckV1(rng.randrange(2 ** 64), rsid if n else None, acks))
                 out.append(O.OpenVpnPacketControlV1(rng.randrange(2 ** 64), acks, rsid if n else None, rng.randrange(2 ** 32), bytes(rng.randrange(256) for _ in range(rng.choice([0, 1, 50])))))
